@@ -95,14 +95,20 @@ Definition all_complete (fid : N) (nul : bool) (rs : list result) : bool :=
 Definition shown_ids (fid : N) (nul : bool) (rs : list result) : list N :=
   ids (List.filter (fun r => match enc_class fid nul (r_node r) with EncOk true => true | _ => false end) rs).
 
-(* the -e rule as documented: null or false; YAML (core schema) spells false also False / FALSE *)
+(* the -e rule as documented: null or false; YAML (core schema) spells the
+   booleans true / True / TRUE and false / False / FALSE *)
 Definition yaml_false (v : str) : bool :=
   str_eqb v [102; 97; 108; 115; 101] || str_eqb v [70; 97; 108; 115; 101] || str_eqb v [70; 65; 76; 83; 69].
+Definition yaml_true (v : str) : bool :=
+  str_eqb v [116; 114; 117; 101] || str_eqb v [84; 114; 117; 101] || str_eqb v [84; 82; 85; 69].
 Definition null_or_false (n : node) : bool :=
   match n with
   | NScalar TagNull _ => true
   | NScalar TagBool v => yaml_false v
   | _ => false
   end.
-(* the rule the code implements: only the literal spelling false *)
-Definition null_or_literal_false (n : node) : bool := negb (counts_as_match n).
+(* a boolean node carries one of the six spellings the YAML decoder resolves to !!bool *)
+Definition bool_well_spelled (n : node) : bool :=
+  match n with NScalar TagBool v => yaml_false v || yaml_true v | _ => true end.
+(* the rule the code implements *)
+Definition not_a_match (n : node) : bool := negb (counts_as_match n).
